@@ -68,6 +68,7 @@ def run_unit(unit, keep=False, rlimit=None, repo=REPO, extra_verus_args="", rend
         res["rewrites"] = gmap["rewrites"]
         res["lost_hints"] = gmap["lost_hints"]
         res["lost_closures"] = gmap.get("lost_closures", [])
+        res["reanchored_hints"] = gmap.get("reanchored_hints", [])
         res["items"] = gmap["functions"]
         jout = os.path.join(ws, "vx-verus.json")
         env = dict(os.environ)
